@@ -24,18 +24,27 @@ inductive Obj where
   | hold (h : Hold)
 deriving Repr, DecidableEq
 
+def startOf (r : Rec) : Except Err Rat :=
+  match r.get "StartTime" with
+  | none => .ok 0
+  | some v => numOf v
+
+def laneOf (r : Rec) : Except Err Int :=
+  match r.get "Lane" with
+  | none => .error .attr
+  | some v => do let q ← numOf v; intOfRat q
+
+def keySoundsOf (r : Rec) : Except Err KsCell :=
+  match r.get "KeySounds" with
+  | none => .ok (KsCell.list [])
+  | some (.ks l) => .ok (KsCell.list l)
+  | some _ => .error .type
+
 /-- one hit object: an object with an end time is a hold of that duration -/
 def denoteObj (r : Rec) : Except Err Obj := do
-  let start ← match r.get "StartTime" with
-    | none => .ok (0 : Rat)
-    | some v => numOf v
-  let lane ← match r.get "Lane" with
-    | none => .error .attr
-    | some v => do let q ← numOf v; intOfRat q
-  let ks ← match r.get "KeySounds" with
-    | none => .ok (KsCell.list [])
-    | some (.ks l) => .ok (KsCell.list l)
-    | some _ => .error .type
+  let start ← startOf r
+  let lane ← laneOf r
+  let ks ← keySoundsOf r
   match r.get "EndTime" with
   | none => .ok (.hit ⟨start, lane - 1, ks⟩)
   | some v => do
@@ -182,6 +191,22 @@ def keySoundsDeclared (d : Doc) : Bool :=
 
 /-- every hit object declares its `Lane` (the property does not speak about an omitted lane) -/
 def lanesDeclared (d : Doc) : Bool := (d.hitObjects.getD []).all (fun r => (r.get "Lane").isSome)
+
+/-- a numeric key: absent, or a YAML int / float -/
+def numLike : Option YV → Bool
+  | none => true
+  | some (.int _) => true
+  | some (.flt _) => true
+  | _ => false
+
+/-- a hit object as the property quantifies over them: `StartTime` / `EndTime` numeric when present, `Lane` an
+integer, `KeySounds` declared (the last conjunct is the hypothesis forced by open finding D21) -/
+def objOk (r : Rec) : Bool :=
+  numLike (r.get "StartTime") && numLike (r.get "EndTime") &&
+  (match r.get "Lane" with | some (.int _) => true | _ => false) &&
+  (match r.get "KeySounds" with | some (.ks _) => true | _ => false)
+
+def objsDeclared (d : Doc) : Bool := (d.hitObjects.getD []).all objOk
 
 /-- no `keysounds` cell of the chart is NaN (hypothesis forced by open finding D08) -/
 def ksLists (c : Chart) : Bool :=
